@@ -21,6 +21,18 @@ pub struct C05;
 
 pub const NT: usize = 40;
 
+/// The ids of the 40 leaf terms (ascending): a dense block and ids chosen so that id pairs coincide under
+/// mixed-radix / shifted keys a*M + b for M = 2^8, 10^3, 10^4, 2^16, 10^5, 2^17, 10^6, 2^20, 3*10^6, 2^23
+/// (e.g. (5, 3_000_007) and (8, 7) for M = 10^6), plus the largest id.
+pub const IDS: [u32; NT] = [
+    1, 2, 3, 4, 5, 6, 7, 8, 9, 10, 11, 12, 13, 14, 15, 16, 17, 18, 19, 20, 21, 22, 23, 24, 25, 26, 27, 28, 29, 261, 1005, 10_004, 65_543, 100_006, 131_080, 1_000_003, 1_048_585,
+    3_000_007, 8_388_615, 9_999_999,
+];
+
+fn index_of(id: u32) -> usize {
+    IDS.binary_search(&id).expect("term of the fixture")
+}
+
 #[derive(Clone, Debug, Serialize, Deserialize, PartialEq)]
 pub enum Case {
     Matrix {
@@ -58,10 +70,11 @@ thread_local! {
         f.terms.push(TermFact { id: 100, name: "root".into(), obsolete: false, replacement: None });
         f.terms.push(TermFact { id: 118, name: "phenotype".into(), obsolete: false, replacement: None });
         f.edges.push((118, 100));
-        for i in 0..NT as u32 {
-            f.terms.push(TermFact { id: i + 1, name: format!("t{i}"), obsolete: i % 5 == 0, replacement: if i % 10 == 0 { Some(i + 2) } else { None } });
+        for (i, id) in IDS.iter().enumerate() {
+            let i = i as u32;
+            f.terms.push(TermFact { id: *id, name: format!("t{i}"), obsolete: i % 5 == 0, replacement: if i % 10 == 0 { Some(IDS[i as usize + 1]) } else { None } });
             if i != 0 {
-                f.edges.push((i + 1, 100));
+                f.edges.push((*id, 100));
             }
         }
         // a few records of every kind (set similarity / clustering must not depend on annotations)
@@ -84,9 +97,7 @@ struct Table {
 impl Similarity for Table {
     fn calculate(&self, a: &HpoTerm, b: &HpoTerm) -> f32 {
         self.calls.set(self.calls.get() + 1);
-        let i = a.id().as_u32() as usize - 1;
-        let j = b.id().as_u32() as usize - 1;
-        self.t[i * NT + j]
+        self.t[index_of(a.id().as_u32()) * NT + index_of(b.id().as_u32())]
     }
 }
 
@@ -174,7 +185,7 @@ fn check_int_matrix(rows: usize, cols: usize, stats: &mut Stats) -> CheckResult 
 fn to_set<'a>(o: &'a Ontology, v: &[u8]) -> HpoSet<'a> {
     let mut g = HpoGroup::new();
     for x in v {
-        g.insert(u32::from(*x % NT as u8) + 1);
+        g.insert(IDS[usize::from(*x) % NT]);
     }
     HpoSet::new(o, g)
 }
@@ -191,8 +202,8 @@ fn check_sets(table: &[f32], pairs: &[(Vec<u8>, Vec<u8>)], scale: f64, stats: &m
         for (pi, (a, b)) in pairs.iter().enumerate() {
             let sa = to_set(o, a);
             let sb = to_set(o, b);
-            let ia: Vec<usize> = sa.iter().map(|t| t.id().as_u32() as usize - 1).collect();
-            let ib: Vec<usize> = sb.iter().map(|t| t.id().as_u32() as usize - 1).collect();
+            let ia: Vec<usize> = sa.iter().map(|t| index_of(t.id().as_u32())).collect();
+            let ib: Vec<usize> = sb.iter().map(|t| index_of(t.id().as_u32())).collect();
             for (ci, (comb, name)) in COMBS.iter().enumerate() {
                 stats.eval(1);
                 let want = reference(*comb, ia.len(), ib.len(), &|i, j| f64::from(table[ia[i] * NT + ib[j]]));
@@ -249,8 +260,8 @@ fn check_sets(table: &[f32], pairs: &[(Vec<u8>, Vec<u8>)], scale: f64, stats: &m
             // term level cache: (a,b), (b,a), (a,b) again
             for x in sa.iter() {
                 for y in sb.iter() {
-                    let w1 = table[(x.id().as_u32() as usize - 1) * NT + y.id().as_u32() as usize - 1];
-                    let w2 = table[(y.id().as_u32() as usize - 1) * NT + x.id().as_u32() as usize - 1];
+                    let w1 = table[index_of(x.id().as_u32()) * NT + index_of(y.id().as_u32())];
+                    let w2 = table[index_of(y.id().as_u32()) * NT + index_of(x.id().as_u32())];
                     let c = (term_cache.calculate(&x, &y), term_cache.calculate(&y, &x), term_cache.calculate(&x, &y));
                     ensure!(
                         c.0.to_bits() == w1.to_bits() && c.1.to_bits() == w2.to_bits() && c.2.to_bits() == w1.to_bits(),
